@@ -55,6 +55,9 @@ class GlyphSpec:
 
 
 def _rgb(rng):
+    # black is SVG's default paint: elements painted black carry no fill attribute at all
+    if rng.random() < 0.12:
+        return (0, 0, 0)
     return (rng.randrange(256), rng.randrange(256), rng.randrange(256))
 
 
